@@ -359,7 +359,8 @@ CallNode(n, st, tr, env) ==
        \* a sole starred argument: CPython 3.12 converts it to a tuple at the call, i.e. AFTER the
        \* keywords; the language does not fix this - both placements are accepted (lookahead)
        LET sv == Eval(n.args[1].v, f.st, tr, f.env) IN IF Stop(sv) THEN sv ELSE
-       IF Len(n.kws) = 0 \/ NextIs(sv.st, tr, "iter", "", sv.v) THEN
+       \* (a plain value that is not iterable: TypeError in place = the recording ends here, or after the keywords)
+       IF Len(n.kws) = 0 \/ NextIs(sv.st, tr, "iter", "", sv.v) \/ (~IsRec(sv.v) /\ NotIterable(sv.v) /\ sv.st.l > Len(tr)) THEN
             LET a == Iterate(sv.v, sv.st, tr, sv.env, "Starred") IN
             IF a.x # "" \/ ~a.st.ok THEN Ex(a.st, a.x, sv.env) ELSE
             LET kw == EvalKws(n.kws, 1, a.st, tr, sv.env, <<>>, <<>>) IN
